@@ -180,8 +180,4 @@ Fixpoint nodupb (l : list (list N)) : bool :=
 Definition run_dom (cfg : run_cfg) : bool :=
   plain_sel (rc_accounts cfg) && plain_sel (rc_bal_acc cfg) && plain_sel (rc_grp_acc cfg)
   && plain_sel (rc_reg_acc cfg) && plain_sel (rc_eq_acc cfg)
-  && match rc_filter cfg with
-     | Some (f, _) => negb (has_ts_leaf f) || (rc_zone_off cfg =? 0)
-     | None => true
-     end
   && nodupb (map kind_name (rc_targets cfg)) && nodupb (map export_name (rc_exports cfg)).
